@@ -226,17 +226,56 @@ const PROBE_LUA: &str = "--!keep this\n-- plain comment\nlocal function sideEffe
 const PROBE_ATTR: &str = "@native\nlocal function nat() return 1 end\n@checked\nlocal function chk() return 2 end\nreturn nat, chk\n";
 const PROBE_LIB: &str = "local lib = {}\nlib.x = 1 + 1\nreturn lib\n";
 
+const PROBE_ALIAS_USER: &str = "local dep = require('@pkg/dep')\nreturn dep\n";
+const PROBE_FOLDER_USER: &str = "local f = require('./folder')\nreturn f\n";
+const PROBE_SOURCE_USER: &str = "local thing = require('@own/thing')\nreturn thing\n";
+
+/// The probe project. Which serialised setting is observable through which file (also in meta/C19.json):
+/// * `src/a.lua`, `src/b.lua`  every rule parameter (comments `--!keep`, assert / profiling calls with side
+///   effects, interpolated string, globals `a b foo zed`, named function, `_G.VALUE`, long concatenation for
+///   `column_span`, `require('./lib')` for bundle / convert_require); two copies so that filters
+///   (`**/a.lua`, `**/b.lua`) discriminate; `src/attr.luau` for `remove_attribute.match`
+/// * `src/alias.lua`           `use_luau_configuration` of the path and luau require modes: `@pkg` is an alias
+///   of the `.luaurc` at the project root, resolvable only when the flag is on
+/// * `src/folder_user.lua`     `module_folder_name`: `src/folder/init.lua` and `src/folder/index.lua` differ;
+///   path vs luau require mode: `./sibling` inside `folder/init.lua` is `folder/sibling.lua` (path) or
+///   `src/sibling.lua` (luau)
+/// * `src/source_user.lua`     `sources` / `aliases` of a require mode (`@own` -> `./vendor`)
+/// * every bundled output      `modules_identifier`, `excludes` (`./lib` stays a require)
+/// * `note.txt`                `append_text_comment.file`
 fn probe_resources() -> Resources {
     let r = Resources::from_memory();
     r.write("src/a.lua", PROBE_LUA).unwrap();
     r.write("src/b.lua", PROBE_LUA).unwrap();
     r.write("src/attr.luau", PROBE_ATTR).unwrap();
     r.write("src/lib.lua", PROBE_LIB).unwrap();
+    r.write("src/alias.lua", PROBE_ALIAS_USER).unwrap();
+    r.write("src/folder_user.lua", PROBE_FOLDER_USER).unwrap();
+    r.write("src/source_user.lua", PROBE_SOURCE_USER).unwrap();
+    r.write("src/folder/init.lua", "return require('./sibling')\n").unwrap();
+    r.write("src/folder/sibling.lua", "return 'inner sibling'\n").unwrap();
+    r.write("src/sibling.lua", "return 'outer sibling'\n").unwrap();
+    r.write("src/folder/index.lua", "return 'from index'\n").unwrap();
+    r.write(".luaurc", "{ \"aliases\": { \"pkg\": \"./packages\" } }").unwrap();
+    r.write("packages/dep.lua", "return 'dependency'\n").unwrap();
+    r.write("vendor/thing.lua", "return 'vendored'\n").unwrap();
     r.write("note.txt", "from file").unwrap();
     r
 }
 
-const PROBE_OUTPUTS: &[&str] = &["out/a.lua", "out/b.lua", "out/attr.luau", "out/lib.lua"];
+const PROBE_OUTPUTS: &[&str] = &[
+    "out/a.lua",
+    "out/b.lua",
+    "out/attr.luau",
+    "out/lib.lua",
+    "out/alias.lua",
+    "out/folder_user.lua",
+    "out/source_user.lua",
+    "out/folder/init.lua",
+    "out/folder/index.lua",
+    "out/folder/sibling.lua",
+    "out/sibling.lua",
+];
 
 /// what a configuration does to the probe project: every output file, or the error texts
 fn behaviour(cfg: Configuration) -> String {
@@ -416,6 +455,8 @@ fn rule_variants(name: &str) -> Vec<Vec<(&'static str, J)>> {
                 v.push(vec![id.clone(), ("value", value.clone())]);
                 v.push(vec![("default_value", value), id.clone(), ("env", s("DLV_C19_UNSET_VARIABLE"))]);
             }
+            v.push(vec![id.clone(), ("env", s("DLV_C19_SET_VARIABLE"))]);
+            v.push(vec![id.clone(), ("env_json", s("DLV_C19_SET_VARIABLE"))]);
             v.push(vec![id.clone(), ("env", s("DLV_C19_UNSET_VARIABLE"))]);
             v.push(vec![id.clone(), ("env_json", s("DLV_C19_UNSET_VARIABLE"))]);
             v.push(vec![id.clone(), ("default_value", s("d"))]);
@@ -490,6 +531,11 @@ fn bundle_forms() -> Vec<J> {
     for b in [true, false] {
         modes.push(obj(vec![("name", s("luau")), ("use_luau_configuration", J::Bool(b))]));
     }
+    // `sources` / `aliases`: not described by the Lean model (answered `unmodelled`), judged by the oracles only
+    modes.push(obj(vec![("name", s("path")), ("sources", obj(vec![("@own", s("./vendor"))]))]));
+    modes.push(obj(vec![("name", s("path")), ("sources", obj(vec![("@own", s("./vendor"))])), ("use_luau_configuration", J::Bool(false)), ("module_folder_name", s("index"))]));
+    modes.push(obj(vec![("name", s("luau")), ("aliases", obj(vec![("@own", s("../vendor"))]))]));
+    modes.push(obj(vec![("name", s("luau")), ("sources", obj(vec![("@own", s("../vendor"))])), ("use_luau_configuration", J::Bool(false))]));
     let mut v = vec![J::Null];
     for m in &modes {
         v.push(obj(vec![("require_mode", m.clone())]));
@@ -950,7 +996,21 @@ fn settle(report: &mut Report, outcomes: Vec<Outcome>, groups: &mut BTreeMap<Str
                     failing_input_found: true,
                 }),
                 Some(false) => report.count("known_region_roundtrip_failures", 1),
-                None => report.count("roundtrip_failures_unmodelled", 1),
+                None => {
+                    // no verdict of the model (it answered `unmodelled`): the round trip is still demanded,
+                    // except for convert_require rules (F27, known)
+                    if o.case.j.text().contains("\"convert_require\"") {
+                        report.count("known_region_roundtrip_failures", 1);
+                    } else {
+                        violations.push(Violation {
+                            kind: "oracle".into(),
+                            check: "roundtrip".into(),
+                            what: format!("(setting outside the Lean model) {}", why),
+                            input: case_input(&o.case),
+                            failing_input_found: true,
+                        });
+                    }
+                }
             }
         }
         // the model's own round-trip verdict must never be more optimistic than the code's behaviour
@@ -1103,6 +1163,8 @@ fn probe_sensitivity(report: &mut Report) {
         ("{rules:[{rule:'inject_global_value', identifier:'VALUE', value:1}]}", "{rules:[{rule:'inject_global_value', identifier:'VALUE', value:'x'}]}"),
         ("{rules:[{rule:'inject_global_value', identifier:'VALUE'}]}", "{rules:[{rule:'inject_global_value', identifier:'other'}]}"),
         ("{rules:[{rule:'inject_global_value', identifier:'VALUE', env:'DLV_C19_UNSET_VARIABLE'}]}", "{rules:[{rule:'inject_global_value', identifier:'VALUE', env:'DLV_C19_UNSET_VARIABLE', default_value:3}]}"),
+        ("{rules:[{rule:'inject_global_value', identifier:'VALUE', env:'DLV_C19_SET_VARIABLE'}]}", "{rules:[{rule:'inject_global_value', identifier:'VALUE', env_json:'DLV_C19_SET_VARIABLE'}]}"),
+        ("{rules:[{rule:'inject_global_value', identifier:'VALUE', env:'DLV_C19_SET_VARIABLE'}]}", "{rules:[{rule:'inject_global_value', identifier:'VALUE', env:'DLV_C19_UNSET_VARIABLE'}]}"),
         ("{rules:[{rule:'append_text_comment', text:'hi'}]}", "{rules:[{rule:'append_text_comment', text:'hi', location:'end'}]}"),
         ("{rules:[{rule:'append_text_comment', text:'hi'}]}", "{rules:[{rule:'append_text_comment', file:'note.txt'}]}"),
         ("{rules:[{rule:'convert_require', current:'path', target:'luau'}]}", "{rules:[{rule:'convert_require', current:'path', target:'roblox'}]}"),
@@ -1112,6 +1174,13 @@ fn probe_sensitivity(report: &mut Report) {
         ("{rules:[]}", "{rules:[], bundle:{require_mode:'path'}}"),
         ("{rules:[], bundle:{require_mode:'path'}}", "{rules:[], bundle:{require_mode:'path', modules_identifier:'__M'}}"),
         ("{rules:[], bundle:{require_mode:'path'}}", "{rules:[], bundle:{require_mode:'path', excludes:['./lib']}}"),
+        ("{rules:[], bundle:{require_mode:'path'}}", "{rules:[], bundle:{require_mode:{name:'path', use_luau_configuration:false}}}"),
+        ("{rules:[], bundle:{require_mode:'luau'}}", "{rules:[], bundle:{require_mode:{name:'luau', use_luau_configuration:false}}}"),
+        ("{rules:[], bundle:{require_mode:'path'}}", "{rules:[], bundle:{require_mode:{name:'path', module_folder_name:'index'}}}"),
+        ("{rules:[], bundle:{require_mode:'path'}}", "{rules:[], bundle:{require_mode:'luau'}}"),
+        ("{rules:[], bundle:{require_mode:'path'}}", "{rules:[], bundle:{require_mode:{name:'path', sources:{'@own':'./vendor'}}}}"),
+        ("{rules:[], bundle:{require_mode:'luau'}}", "{rules:[], bundle:{require_mode:{name:'luau', aliases:{'@own':'../vendor'}}}}"),
+        ("{rules:[{rule:'convert_require', current:'path', target:'luau'}]}", "{rules:[{rule:'convert_require', current:{name:'path', use_luau_configuration:false}, target:'luau'}]}"),
         ("{rules:['remove_empty_do']}", "{rules:[{rule:'remove_empty_do', skip_files:'**/b.lua'}]}"),
         ("{rules:['remove_empty_do']}", "{rules:[{rule:'remove_empty_do', apply_to_files:'src/a.lua'}]}"),
         ("{rules:['remove_empty_do']}", "{rules:['remove_empty_do'], skip_files:['src/b.*']}"),
@@ -1140,6 +1209,9 @@ pub fn run(report: &mut Report, replay: Option<&str>) {
         wrong JSON type) of a set of valid configurations. Non-trivial = a corruption, or a configuration with filters, \
         a rule in object form, a generator or a bundle setting; distinct = distinct configuration text."
         .to_owned();
+    // one variable is set (valid JSON) so that `env` / `env_json` of inject_global_value are observable;
+    // DLV_C19_UNSET_VARIABLE is never set
+    std::env::set_var("DLV_C19_SET_VARIABLE", "[1, \"two\"]");
     let mut model = Model::spawn();
     if let Some(path) = replay {
         let text = std::fs::read_to_string(path).unwrap_or_default();
@@ -1298,72 +1370,100 @@ pub fn run(report: &mut Report, replay: Option<&str>) {
             must_reject: Some("invalid-regex".into()),
         });
     }
-    // contradictory properties: every collision list of the code (`verify_property_collisions`), every pair
-    // of it (adjacent in the list or not) in both orders, every larger subset, with and without harmless
-    // companions, in several value kinds
-    let collision_lists: &[(&str, &[(&str, J)], &[&str], &[(&str, J)])] = &[
-        ("append_text_comment", &[], &["text", "file"], &[("location", J::Str("end".into()))]),
-        ("inject_global_value", &[("identifier", J::Str("V".into()))], &["value", "env", "env_json"], &[]),
-        ("inject_global_value", &[("identifier", J::Str("V".into()))], &["value", "default_value"], &[]),
+    // property combinations: for every rule, EVERY subset of the properties of its schema (taken from the
+    // model's schema dump), in EVERY key order, each property with a well-typed value. The model and the real
+    // code must agree on accept / reject for all of them (required properties, collisions), and every
+    // combination containing two members of a documented collision group must be rejected (oracle).
+    let collision_groups: &[(&str, &[&str])] = &[
+        ("append_text_comment", &["text", "file"]),
+        ("inject_global_value", &["value", "env", "env_json"]),
+        ("inject_global_value", &["value", "default_value"]),
     ];
-    for (rule, required, list, companions) in collision_lists {
-        let n = list.len();
-        for mask in 0u32..(1 << n) {
-            if mask.count_ones() < 2 {
-                continue;
+    fn permutations(items: &[usize]) -> Vec<Vec<usize>> {
+        if items.len() <= 1 {
+            return vec![items.to_vec()];
+        }
+        let mut out = Vec::new();
+        for i in 0..items.len() {
+            let mut rest = items.to_vec();
+            let head = rest.remove(i);
+            for mut p in permutations(&rest) {
+                p.insert(0, head);
+                out.push(p);
             }
-            let chosen: Vec<&str> = (0..n).filter(|i| mask & (1 << i) != 0).map(|i| list[i]).collect();
-            for reversed in [false, true] {
-                for value_kind in 0..3 {
-                    for with_companions in [false, true] {
-                        for required_first in [true, false] {
-                            let mut keys = chosen.clone();
-                            if reversed {
-                                keys.reverse();
-                            }
-                            let value_of = |k: &str| -> J {
-                                // `env` / `env_json` / `text` / `file` must be strings to be well typed
-                                if matches!(k, "value" | "default_value") {
-                                    match value_kind {
-                                        0 => s("x"),
-                                        1 => J::Num(1),
-                                        _ => J::Null,
-                                    }
-                                } else if k == "file" {
-                                    s("note.txt")
-                                } else {
-                                    s("DLV_C19_UNSET_VARIABLE")
-                                }
-                            };
-                            let mut kvs: Vec<(String, J)> = vec![("rule".to_owned(), s(rule))];
-                            if required_first {
-                                kvs.extend(required.iter().map(|(k, v)| ((*k).to_owned(), v.clone())));
-                            }
-                            for k in &keys {
-                                kvs.push(((*k).to_owned(), value_of(k)));
-                            }
-                            if !required_first {
-                                kvs.extend(required.iter().map(|(k, v)| ((*k).to_owned(), v.clone())));
-                            }
-                            if with_companions {
-                                kvs.extend(companions.iter().map(|(k, v)| ((*k).to_owned(), v.clone())));
-                                kvs.push(("skip_files".to_owned(), s("**/b.lua")));
-                            }
-                            corrupted.push(Case {
-                                j: config_with_rules(vec![J::Obj(kvs)]),
-                                origin: format!("contradictory properties {}: {}", rule, keys.join("+")),
-                                must_reject: Some("contradictory".into()),
-                            });
-                        }
+        }
+        out
+    }
+    let mut rules_with_props: Vec<String> = schema.iter().map(|x| x.0.clone()).collect();
+    rules_with_props.dedup();
+    let mut subset_cases = 0u64;
+    for rule in &rules_with_props {
+        let props: Vec<(String, String)> = schema.iter().filter(|x| x.0 == *rule).map(|x| (x.1.clone(), x.2.clone())).collect();
+        let n = props.len();
+        let value_kinds = if props.iter().any(|(_, kind)| kind == "any") { 3 } else { 1 };
+        for mask in 1u32..(1 << n) {
+            let chosen: Vec<usize> = (0..n).filter(|i| mask & (1 << i) != 0).collect();
+            let names: Vec<&str> = chosen.iter().map(|i| props[*i].0.as_str()).collect();
+            let contradictory = collision_groups
+                .iter()
+                .any(|(r, group)| r == rule && group.iter().filter(|g| names.contains(g)).count() >= 2);
+            for (pi, order) in permutations(&chosen).into_iter().enumerate() {
+                for value_kind in 0..value_kinds {
+                    let mut kvs: Vec<(String, J)> = Vec::new();
+                    let rule_first = (pi + value_kind) % 2 == 0;
+                    if rule_first {
+                        kvs.push(("rule".to_owned(), s(rule)));
                     }
+                    for i in &order {
+                        let (key, kind) = &props[*i];
+                        let value = match kind.as_str() {
+                            "bool" => J::Bool(false),
+                            "string" => match key.as_str() {
+                                "file" => s("note.txt"),
+                                "env" | "env_json" => s("DLV_C19_UNSET_VARIABLE"),
+                                "identifier" => s("VALUE"),
+                                _ => s("x"),
+                            },
+                            "string-list" => arr_s(&["a"]),
+                            "regex-list" => arr_s(&["^--!"]),
+                            "ident-list" => arr_s(&["a"]),
+                            "require-mode" => s("path"),
+                            "any" => match value_kind {
+                                0 => s("x"),
+                                1 => J::Num(1),
+                                _ => J::Null,
+                            },
+                            k if k.starts_with("enum=") => s(k[5..].split(',').last().unwrap_or("")),
+                            _ => J::Null,
+                        };
+                        kvs.push((key.clone(), value));
+                    }
+                    if !rule_first {
+                        kvs.push(("rule".to_owned(), s(rule)));
+                    }
+                    if pi % 3 == 1 {
+                        kvs.push(("skip_files".to_owned(), s("**/b.lua")));
+                    }
+                    subset_cases += 1;
+                    corrupted.push(Case {
+                        j: config_with_rules(vec![J::Obj(kvs)]),
+                        origin: format!(
+                            "property-subset {}: {}",
+                            rule,
+                            order.iter().map(|i| props[*i].0.as_str()).collect::<Vec<_>>().join("+")
+                        ),
+                        must_reject: if contradictory { Some("contradictory".into()) } else { None },
+                    });
                 }
             }
         }
     }
+    report.count("property_subset_cases", subset_cases);
     report.exhaustive.insert(
-        "contradictory properties: every subset (size >= 2) of every collision list, both orders".into(),
+        "property combinations: every subset of every rule's schema properties in every key order (contradictory = two members of a collision group)".into(),
         true,
     );
+
     report.count("corruption_cases", corrupted.len() as u64);
     report.exhaustive.insert(
         "all single-field corruptions (extra key x every known property name, misspelt, duplicate, wrong type) of one base configuration per rule and three generator/bundle/top-level bases".into(),
